@@ -41,6 +41,8 @@ static void c06Case(Rng &rng, CaseResult &r) {
   bool withCallback = !rng.chance(0.15);
   if (r.needSample()) r.sample = vf::J::obj().kv("profile", profile).kv("params", gdesc).kraw("circuit", circuitJson(c0)).str();
   if (r.dumpOnly) return;
+  // the property quantifies over parameter sets ACCEPTED by the parameter check
+  try { params.check(); } catch (const std::exception &) { r.count("parameter_set_rejected_by_check"); r.sig = "rejected"; return; }
   Rectangle area = c0.computePlacementArea();
   double maxCoord = std::max(std::max(std::fabs((double)area.minX), std::fabs((double)area.maxX)), std::max(std::fabs((double)area.minY), std::fabs((double)area.maxY)));
   for (int i = 0; i < c0.nbCells(); ++i) maxCoord = std::max(maxCoord, std::max(std::fabs((double)c0.cellX_[i]), std::fabs((double)c0.cellY_[i])) + std::max(c0.cellWidth_[i], c0.cellHeight_[i]));
@@ -265,6 +267,7 @@ static void c08SchedCase(Rng &rng, CaseResult &r, bool light) {
   params.global.distanceTolerance = 0.0;
   if (r.needSample()) r.sample = vf::J::obj().kv("profile", profile).kv("params", gdesc).kv("what", "placeGlobal under forced completion orders of the x/y solves").kraw("circuit", circuitJson(c0)).str();
   if (r.dumpOnly) return;
+  try { params.check(); } catch (const std::exception &) { r.count("parameter_set_rejected_by_check"); r.sig = "rejected"; return; }
   coloquinte::verif::onSolveBegin.store(sched::onBegin);
   coloquinte::verif::onSolveEnd.store(sched::onEnd);
   auto runWith = [&](int mode, const std::vector<unsigned char> &bits, Circuit &out, long long &firstLow, long long &firstHigh, int &steps) -> bool {
